@@ -14,6 +14,7 @@ import (
 	"fmt"
 	"io"
 	"io/fs"
+	"runtime"
 	"runtime/debug"
 	"sort"
 	"strings"
@@ -51,6 +52,9 @@ func (f *FS) Resolve(name string) string {
 func NewFS() *FS {
 	return &FS{Files: map[string][]byte{}, Dirs: map[string]bool{".": true}, ReadOnly: map[string]bool{}, Unreadable: map[string]bool{}, Links: map[string]string{}}
 }
+
+// RestoreFrom makes f hold what snapshot holds (the snapshot is consumed).
+func (f *FS) RestoreFrom(snapshot *FS) { *f = *snapshot }
 
 func (f *FS) Clone() *FS {
 	g := NewFS()
@@ -217,14 +221,25 @@ type Proc struct {
 	Fired  []Fault
 	Clock  int64 // logical clock: one tick per step
 
-	Exited  bool
-	Code    int
-	Killed  bool
-	Runaway bool   // ended by the step limit: it would never have ended by itself
-	Crash   string // non-empty: panic value
-	CrashAt string // first jd frame of the panic stack
-	Stack   string
+	Exited bool
+	// gone is set the moment the process ends by exit, kill or the step limit.
+	// A real process is gone at that instant: deferred functions do not run,
+	// buffers are not flushed, a recover() sees nothing. Here the end travels
+	// up the stack as a panic, so deferred code of the program does run; any
+	// attempt it makes to touch the simulated OS re-raises the end instead of
+	// having an effect, and a recover() in the program cannot cancel it.
+	gone     any
+	finished bool
+	Code     int
+	Killed   bool
+	Runaway  bool   // ended by the step limit: it would never have ended by itself
+	Crash    string // non-empty: panic value
+	CrashAt  string // first jd frame of the panic stack
+	Stack    string
 }
+
+// Reset rewinds the stream to its beginning.
+func (s *Stream) Reset() { s.pos, s.reads, s.dead, s.broken, s.zeros = 0, 0, false, false, 0 }
 
 // Cur is the running process. There is exactly one at a time.
 var Cur *Proc
@@ -263,10 +278,29 @@ func ResetGlobals() {
 // shim uses it to keep its Args variable current).
 func OnArgs(f func([]string)) { argsSetters = append(argsSetters, f) }
 
+// leave takes the calling goroutine out of a process that has ended: the main
+// goroutine unwinds to Run with a panic; any other goroutine simply stops, and
+// the scheduler is told that the process is over.
+func (p *Proc) leave() {
+	if Scheduled() && !IsMainGoroutine() {
+		SchedOver()
+		runtime.Goexit()
+	}
+	panic(p.gone)
+}
+
 func (p *Proc) step(kind, arg string) (rec *StepRec, fault *Fault) {
+	if p.gone != nil {
+		p.leave()
+	}
+	Yield(kind)
+	if p.gone != nil {
+		p.leave()
+	}
 	n := len(p.Steps)
 	if n >= MaxSteps {
-		panic(StepLimitPanic{n})
+		p.gone = StepLimitPanic{n}
+		p.leave()
 	}
 	p.Clock++
 	p.Steps = append(p.Steps, StepRec{N: n, Kind: kind, Arg: arg})
@@ -289,7 +323,8 @@ func (p *Proc) step(kind, arg string) (rec *StepRec, fault *Fault) {
 		p.Fired = append(p.Fired, *f)
 		if f.Kind == FKill {
 			rec.Result = "killed"
-			panic(KillPanic{n})
+			p.gone = KillPanic{n}
+			p.leave()
 		}
 		return rec, f
 	}
@@ -314,26 +349,57 @@ func Run(p *Proc, flagSet string, mainFn func()) {
 	ResetGlobals()
 	ResetFlags(flagSet)
 	defer func() {
-		Cur = nil
 		r := recover()
-		switch v := r.(type) {
-		case nil:
-			p.Exited, p.Code = true, 0
-			p.Steps = append(p.Steps, StepRec{N: len(p.Steps), Kind: SExit, Arg: "return", Result: "0"})
-		case ExitPanic:
-			p.Exited, p.Code = true, v.Code
-		case KillPanic:
-			p.Killed, p.Code = true, 137
-		case StepLimitPanic:
-			p.Runaway, p.Code = true, 137
-		default:
-			p.Crash = fmt.Sprint(r)
-			p.Stack = string(debug.Stack())
-			p.CrashAt = FirstFrame(p.Stack)
-			p.Code = 2 // what a Go panic exits with
-		}
+		p.Finish(r, string(debug.Stack()))
 	}()
 	mainFn()
+}
+
+// Finish records how the process ended. r is what the main goroutine's panic
+// carried (nil: main returned). It is idempotent: the first end counts.
+func (p *Proc) Finish(r any, stack string) {
+	if p.finished {
+		return
+	}
+	p.finished = true
+	Cur = nil
+	if p.gone != nil {
+		// however the program's own deferred code ended (it may have
+		// recovered the end and returned, or panicked on its own), the
+		// process had ended before any of it ran
+		r = p.gone
+	}
+	switch v := r.(type) {
+	case nil:
+		p.Exited, p.Code = true, 0
+		p.Steps = append(p.Steps, StepRec{N: len(p.Steps), Kind: SExit, Arg: "return", Result: "0"})
+	case ExitPanic:
+		p.Exited, p.Code = true, v.Code
+	case KillPanic:
+		p.Killed, p.Code = true, 137
+	case StepLimitPanic:
+		p.Runaway, p.Code = true, 137
+	case CrashPanic:
+		p.Crash = v.Value
+		p.Stack = v.Stack
+		p.CrashAt = FirstFrame(p.Stack)
+		p.Code = 2
+	default:
+		p.Crash = fmt.Sprint(r)
+		p.Stack = stack
+		p.CrashAt = FirstFrame(p.Stack)
+		p.Code = 2 // what a Go panic exits with
+	}
+}
+
+// Finished reports whether the end of the process has been recorded.
+func (p *Proc) Finished() bool { return p.finished }
+
+// CrashPanic is how the crash of a goroutine other than the main one ends the
+// process: the Go runtime prints the panic with a stack trace and exits 2.
+type CrashPanic struct {
+	Value string
+	Stack string
 }
 
 // FirstFrame finds the innermost frame of the panic stack that belongs to jd
@@ -384,8 +450,12 @@ func pathErr(op, name string, e syscall.Errno) error {
 // Exit implements os.Exit.
 func Exit(code int) {
 	p := Cur
+	if p.gone != nil {
+		p.leave()
+	}
 	p.Steps = append(p.Steps, StepRec{N: len(p.Steps), Kind: SExit, Result: fmt.Sprint(code)})
-	panic(ExitPanic{code})
+	p.gone = ExitPanic{code}
+	p.leave()
 }
 
 // ReadFile implements os.ReadFile / ioutil.ReadFile: one step.
